@@ -47,7 +47,10 @@ def run(chk, tier):
     chk.floor("R-ERRCLEAN", "failing returns past a cleanup jump", nec, 1)
     import uninit
     uninit.wire(chk, P, ["topology-synthetic.c"], 2)
-    chk.decided += ["the level walk of the index parser never reads levels that were not written (sentinel planted before every call)",
+    chk.decided += ['a failing return of the parser past its first jump to the cleanup label releases what was built',
+                    'a union left unfilled by a failed type parser is not read',
+                    'inside the export cursor helper the advance is clamped and non-negative on every path',
+                    "the level walk of the index parser never reads levels that were not written (sentinel planted before every call)",
                     "synthetic attributes are stored into / exported from the union member matching the level's type",
                     "the parser accepts or rejects without writing outside its fixed/heap arrays (bounds proved on all paths of the scoped accesses)",
                     "rejects with -1/errno set", "export obeys the snprintf length contract (cursor typestate over 7 functions)", "export flag words validated"]
